@@ -293,6 +293,48 @@ func runScalars(raw json.RawMessage, seed int64, rec *Rec) {
 		}
 		slack := (at - asked) / 1e6 // measured bracket in ms between Deadline() and the header being final
 		rec.Add(E("result", "chars", chars, "slack_ms", slack+1, "present", val != "", "count", count))
+	case "deadline_wait":
+		// a stream created under a deadline `secs` seconds away, first used `d` milliseconds later: the timeout on the
+		// wire must not be longer than what is left when the request goes out
+		var hdr http.Header
+		var at time.Time
+		fake := &fakeHTTP{}
+		fake.respond = func(req *http.Request) (*http.Response, error) {
+			at = time.Now()
+			hdr = req.Header.Clone()
+			return nil, errors.New("verif: not sent")
+		}
+		client := connect.NewClient[BV, BV](fake, "http://verif.test/verif.v1.Svc/M", clientProtoOpts(s.Proto)...)
+		t0 := time.Now()
+		ctx, cancel := context.WithDeadline(context.Background(), t0.Add(time.Duration(s.Secs)*time.Second))
+		if s.Used == "bidi" {
+			bs := client.CallBidiStream(ctx)
+			time.Sleep(time.Duration(s.D) * time.Millisecond)
+			_ = bs.Send(&BV{})
+			_ = bs.CloseRequest()
+			_, _ = bs.Receive()
+			_ = bs.CloseResponse()
+		} else {
+			cs := client.CallClientStream(ctx)
+			time.Sleep(time.Duration(s.D) * time.Millisecond)
+			_ = cs.Send(&BV{})
+			_, _ = cs.CloseAndReceive()
+		}
+		cancel()
+		fake.wg.Wait()
+		name := "Connect-Timeout-Ms"
+		if s.Proto != "connect" {
+			name = "Grpc-Timeout"
+		}
+		val := ""
+		if hdr != nil {
+			val = hdr.Get(name)
+		}
+		chars := []string{}
+		for _, r := range val {
+			chars = append(chars, string(r))
+		}
+		rec.Add(E("result", "chars", chars, "present", val != "", "waited_ms", at.Sub(t0).Milliseconds()))
 	case "enc_reuse":
 		// a unary *connect.Request sent twice through a client that compresses above a threshold: first with a large
 		// message (compressed), then with a small one (not compressed). The second exchange must be consistent: the
